@@ -140,10 +140,29 @@ CLAIMED = {
         note=NOTE + "BufWriter is modelled from its documented behaviour; that the header write comes after all data, index and zoom writes is "
                     "observed on every recorded log (model prediction r…r c…c), not proved from a writer model. Summary and data count are not "
                     "among 'record, index, zoom level'. A panic on an injected failure is not counted as success."),
+    "C11": dict(
+        text=("Proof: the hand-off pipeline as a product of staging-buffer protocols (one producer per chromosome, one consumer "
+              "switching the file to chromosome 0, awaiting it, taking it back, switching to chromosome 1, …): for ANY number of "
+              "chromosomes, any producer histories, both staging modes and EVERY interleaving of all atomic steps, a run that gets "
+              "through all chromosomes leaves initial bytes ++ chromosome 0's bytes ++ … — the bytes of the sequential schedule (applies "
+              "per destination: data file and each zoom file); chunked converter output = serial output (chunks partition the lines). "
+              "Correspondence: real writes under a lattice of run-time configurations (threads 1..16, runtime flavour, channel size, "
+              "buffering, sources) × seeded delay schedules at the pipeline's hand-off points (cfg-gated hooks): byte images must equal "
+              "the single-thread reference; converters -t N vs -t 1."),
+        ref="DESIGN.md §5 C11",
+        note=NOTE + "PARTIAL by nature: tokio's scheduler, real memory ordering and the OS temp file are not modelled; a behaviour outside the "
+                    "transition system (e.g. a torn access) can only be exposed by the delayed runs. Progress of the product (no deadlock) is "
+                    "not a theorem; hangs are searched by the watchdog."),
 }
 
 PENDING = ["C01", "C02", "C03", "C04", "C05", "C06", "C07", "C08", "C09", "C10", "C11", "C13", "C14", "C15", "C16",
            "C17", "C18", "C19", "C20"]
+
+
+def hook_commits():
+    import subprocess
+    out = subprocess.run(["git", "-C", "/repo", "log", "--format=%H %s"], capture_output=True, text=True).stdout
+    return [l.split()[0] for l in out.splitlines() if " verif hook:" in l][::-1]
 
 
 def main():
@@ -168,7 +187,7 @@ def main():
             "guard": "bigtools_verif",
             "enable": "RUSTFLAGS=\"--cfg bigtools_verif\" (set by /verif/check for every cargo build of /repo and of the harness)",
             "baseline_off_cmd": "cd /repo && cargo test --workspace --no-fail-fast --offline",
-            "source_commits": [],
+            "source_commits": hook_commits(),
             "add_only": True,
         },
         "engines": [{
